@@ -47,29 +47,26 @@ class _TrioClockView:
         return self.now
 
 
-class _BlockLogger(trio.abc.Instrument):
-    def __init__(self, world: W.World) -> None:
-        self.world = world
+def _make_clock(world: W.World):
+    """MockClock whose autojump - the moment trio has found nothing runnable and no I/O, i.e. the
+    loop really waits - is logged as the simulator's `block` event with the virtual wait."""
 
-    def before_io_wait(self, timeout: float) -> None:
-        if timeout <= 0:
-            return
-        w = self.world
-        w.count_seam()
-        try:
-            runner = trio._core._run.GLOBAL_RUN_CONTEXT.runner  # noqa: SLF001
-            nd = runner.deadlines.next_deadline()
-            virt = nd - runner.clock.current_time()
-        except Exception:  # noqa: BLE001
-            virt = float("inf")
-        if virt == float("inf") or virt > 1e9:
-            t = None
-        else:
-            t = max(0.0, virt)
-        seq = w.log.add("block", [t if t is not None else "inf", "trio"])
-        w.blocks.append((seq, w.clock.now, t))
-        if w.on_block is not None:
-            w.on_block(t)
+    mock = trio.testing.MockClock(autojump_threshold=AUTOJUMP)
+    real_autojump = mock._autojump  # noqa: SLF001
+
+    def _autojump() -> None:
+        jump = trio.lowlevel.current_statistics().seconds_to_next_deadline
+        if 0 < jump < float("inf"):
+            w = world
+            w.count_seam()
+            seq = w.log.add("block", [float(jump), "trio"])
+            w.blocks.append((seq, w.clock.now, float(jump)))
+            if w.on_block is not None:
+                w.on_block(float(jump))
+        real_autojump()
+
+    mock._autojump = _autojump  # noqa: SLF001  (MockClock is final: instance-level wrap)
+    return mock
 
 
 class _TrioState:
@@ -114,8 +111,12 @@ class _TrioState:
 
     def run(self, async_fn, *args, instruments=(), **kw):
         w = self.world
-        mock = trio.testing.MockClock(autojump_threshold=AUTOJUMP)
+        mock = _make_clock(w)
         w.clock.mock = mock
+        # deterministic scheduling: batches are sorted by task creation counter and then shuffled
+        # by a PRNG seeded from the scenario (trio's own hook for reproducible schedules);
+        # without it the order of tasks woken at the same instant depends on object addresses
+        trio._core._run._ALLOW_DETERMINISTIC_SCHEDULING = True  # noqa: SLF001
         trio._core._run._r = random.Random(self.seed)  # noqa: SLF001
 
         async def main():
@@ -125,7 +126,7 @@ class _TrioState:
                 await async_fn(*args)
 
         try:
-            trio.run(main, clock=mock, instruments=[*instruments, _BlockLogger(w)], **kw)
+            trio.run(main, clock=mock, instruments=list(instruments), **kw)
         finally:
             self.running = False
             _ = w.clock.now  # freeze the last virtual time
